@@ -6,6 +6,7 @@ import (
 	"go/ast"
 	"go/printer"
 	"go/token"
+	"strconv"
 	"strings"
 )
 
@@ -48,6 +49,41 @@ func genC08() {
 			b.WriteString("-- internal/bytesconv/bytesconv.go:maxInt not found\n")
 		}
 	}
+	// consts.FSCompressedFileSuffix as bytes
+	{
+		found := false
+		for _, d := range cf.Decls {
+			gd, ok := d.(*ast.GenDecl)
+			if !ok {
+				continue
+			}
+			for _, sp := range gd.Specs {
+				vs, ok := sp.(*ast.ValueSpec)
+				if !ok {
+					continue
+				}
+				for i, n := range vs.Names {
+					if n.Name != "FSCompressedFileSuffix" || i >= len(vs.Values) {
+						continue
+					}
+					if bl, ok := vs.Values[i].(*ast.BasicLit); ok {
+						if str, err := strconv.Unquote(bl.Value); err == nil {
+							var nums []string
+							for _, c := range []byte(str) {
+								nums = append(nums, strconv.Itoa(int(c)))
+							}
+							fmt.Fprintf(&b, "/-- `consts.FSCompressedFileSuffix` (%s) in `pkg/protocol/consts/fs.go` -/\ndef compressedFileSuffix : List UInt8 := [%s]\n\n",
+								bl.Value, strings.Join(nums, ", "))
+							found = true
+						}
+					}
+				}
+			}
+		}
+		if !found {
+			b.WriteString("-- pkg/protocol/consts/fs.go:FSCompressedFileSuffix not found or not a string literal\n")
+		}
+	}
 	type want struct{ file, recv, fn, lean string }
 	for _, w := range []want{
 		{"pkg/app/fs.go", "", "ParseByteRange", "parseByteRange"},
@@ -57,6 +93,10 @@ func genC08() {
 		{"pkg/protocol/header.go", "ResponseHeader", "SetContentRange", "setContentRange"},
 		{"internal/bytesconv/bytesconv.go", "", "ParseUintBuf", "parseUintBuf"},
 		{"internal/bytesconv/bytesconv.go", "", "ParseUint", "parseUint"},
+		// the open path (Hertz/Model/FsTree.lean)
+		{"pkg/app/fs.go", "fsHandler", "openFSFile", "openFSFile"},
+		{"pkg/app/fs.go", "fsHandler", "compressAndOpenFSFile", "compressAndOpenFSFile"},
+		{"pkg/app/fs.go", "fsHandler", "compressFileNolock", "compressFileNolock"},
 	} {
 		fset, f := parseFile(w.file)
 		fd := findFuncC08(f, w.recv, w.fn)
